@@ -835,7 +835,11 @@ def rules(tier):
             # mutation sweep: create_guesses routing flipped
             ('C04.R21', _shared_rule('plumbing', 'generator_glue')),
             # mutation sweep: transitions of a base structure
-            ('C04.R22', _shared_rule('c14', 'r20_structure_tokeniser'))] + _loader_bundle() + []
+            ('C04.R22', _shared_rule('c14', 'r20_structure_tokeniser')),
+            # C04-ea: load_grammar hands skip_brute to _load_terminals in the place of skip_case
+            ('C04.R23', _shared_rule('c14', 'r13_options_forwarded')),
+            # C04-eb: _find_cp result cache without bottom_level
+            ('C04.R24', _shared_rule('c10', 'r25_cracker_plumbing'))] + _loader_bundle() + []
 
 
 META = {
